@@ -54,8 +54,7 @@ theorem validateDataType_np (m : Metadata) : ∀ (dt : DataType), (validateDataT
     unfold validateDataType
     refine bind_no_panic _ _ (noStrategy_np m) fun _ => ?_
     split
-    · rename_i kf vf _ _
-      exact bind_no_panic _ _ (validateField_np kf) fun _ => validateField_np vf
+    · exact validateField_np _
     · rfl
   | .list f => by
     unfold validateDataType
